@@ -1227,7 +1227,8 @@ tsk_treeseq_check_windows(const tsk_treeseq_t *self, tsk_size_t num_windows,
         }
     }
     for (j = 0; j < num_windows; j++) {
-        if (windows[j] >= windows[j + 1]) {
+        /* Written so that a NaN breakpoint is rejected as well */
+        if (!(windows[j] < windows[j + 1])) {
             ret = tsk_trace_error(TSK_ERR_BAD_WINDOWS);
             goto out;
         }
@@ -2671,7 +2672,7 @@ check_positions(
     }
 
     for (i = 0; i < num_positions - 1; i++) {
-        if (positions[i] < 0 || positions[i] >= sequence_length) {
+        if (!(positions[i] >= 0 && positions[i] < sequence_length)) {
             ret = tsk_trace_error(TSK_ERR_POSITION_OUT_OF_BOUNDS);
             goto out;
         }
@@ -2685,7 +2686,7 @@ check_positions(
         }
     }
     // check bounds of last value
-    if (positions[i] < 0 || positions[i] >= sequence_length) {
+    if (!(positions[i] >= 0 && positions[i] < sequence_length)) {
         ret = tsk_trace_error(TSK_ERR_POSITION_OUT_OF_BOUNDS);
         goto out;
     }
@@ -6596,7 +6597,8 @@ tsk_tree_seek(tsk_tree_t *self, double x, tsk_flags_t options)
     int ret = 0;
     const double L = tsk_treeseq_get_sequence_length(self->tree_sequence);
 
-    if (x < 0 || x >= L) {
+    /* Written so that NaN is rejected as well */
+    if (!(x >= 0 && x < L)) {
         ret = tsk_trace_error(TSK_ERR_SEEK_OUT_OF_BOUNDS);
         goto out;
     }
